@@ -299,9 +299,17 @@ def _gen_merge(r):
     return out
 
 
+def merge_call(ss):
+    """receiver.merge(arguments); for families of even size the arguments are handed over as a one-shot iterable"""
+    if len(ss) % 2 == 0:
+        ss[0].merge(s_ for s_ in ss[1:])
+    else:
+        ss[0].merge(ss[1:])
+
+
 def _impl_merge(seqs):
     ss = [mk_any(k, ms) for k, ms in seqs]
-    ss[0].merge(ss[1:])
+    merge_call(ss)
     return show_seq(ss[0])
 
 
@@ -460,7 +468,7 @@ def perturb(r, ms):
     if not ms:
         return ms, "none"
     kind = r.choice(["none", "reorder", "pitch", "onset", "duration", "velocity", "channel", "sig", "sigden", "sigtick",
-                     "key", "drop", "chan_all", "sig", "sigden", "key", "sigtick"])
+                     "key", "drop", "chan_all", "sig", "sigden", "key", "sigtick", "velocity_none"])
     if kind in ("sig", "sigden", "sigtick", "key"):
         want = "KEY_SIGNATURE" if kind == "key" else r.choice(["TIME_SIGNATURE", "KEY_SIGNATURE"]) if kind == "sigtick" else "TIME_SIGNATURE"
         cands = [j for j, x in enumerate(ms) if x[0] == want]
@@ -484,6 +492,8 @@ def perturb(r, ms):
         ms[i] = m[:2] + (m[2] + 1,) + m[3:]
     elif kind == "velocity" and m[0] == "NOTE_ON":
         ms[i] = m[:5] + (m[5] % 127 + 1,) + m[6:]
+    elif kind == "velocity_none" and m[0] == "NOTE_ON":
+        ms[i] = m[:5] + (-1,) + m[6:]                  # a note-on without velocity information (Message's default)
     elif kind == "channel":
         ms[i] = m[:1] + (m[1] + 1,) + m[2:]
     elif kind == "chan_all":
@@ -1107,9 +1117,20 @@ def _show_info(d):
             ",".join(ann(p, c) for p, c in zip(d["info_pitch"], d["info_circle_of_fifths"])))
 
 
+def mk_tok_used(cfg, toks):
+    """for streams of even length: the tokeniser was built at another resolution, has annotated a stream already and then
+    had its public ppqn attribute set (the vocabulary does not depend on it)"""
+    if len(toks) % 2 or len(cfg) < 12:
+        return mk_tok(cfg)
+    t = mk_tok(cfg[:11] + (12 if cfg[11] != 12 else 48,) + cfg[12:])
+    t.get_info(list(toks))
+    t.ppqn = cfg[11]
+    return t
+
+
 def _impl_stream(inp):
     cfg, toks = inp
-    t = mk_tok(cfg)
+    t = mk_tok_used(cfg, toks)
     try:
         res = show_msgss([stored_abs(s) for s in t.detokenise(list(toks))])
     except Exception as e:
@@ -1212,7 +1233,8 @@ def gen_history(r, nsteps=None, two_sided=False):
         elif k == "OTranspose":
             ops.append((k, i, r.choice([0, 1, -1, 2, 12, -12, 7, 50, -50, 13])))
         elif k == "OQuantise":
-            ops.append((k, i, r.choice(G.STEP_POOLS)))
+            prev = [o[2] for o in ops if o[0] == "OQuantise" and o[1] == i]
+            ops.append((k, i, prev[-1] if prev and r.random() < 0.5 else r.choice(G.STEP_POOLS)))   # often the same grid again
         elif k == "OQnl":
             ops.append((k, i, r.choice(G.VALUE_POOLS), r.choice([24, 12]), r.random() < 0.5))
         elif k == "OQuantNorm":
@@ -1601,6 +1623,9 @@ def gen_concat_repeat(r):
             motif.append(WT(r.choice([0, 1]), r.choice([6, 12, 24])))         # a rest, e.g. the one pad() appended
         if r.random() < 0.4:
             motif.append(WT(0, r.choice([6, 12])))
+    if r.random() < 0.15:      # an unclosed note between two single rests, then a proper note
+        p_, q_ = r.sample([60, 61, 62], 2)
+        motif = [WT(0, r.choice([12, 24])), ON(0, p_, 90), WT(0, r.choice([12, 24])), ON(0, q_, 100), WT(0, 12), OFF(0, q_)]
     mode = r.choice(["new", "new", "prefix", "self"])
     ops = [("ONewRel", motif)]
     if mode == "self":
@@ -1775,7 +1800,7 @@ def gen_midi_file(r, dyadic=True):
     metas = r.choice([list(range(ntr)), [0], [r.randrange(ntr)], []])
     mi = r.choice([0, 0, 0, len(groups) - 1, len(groups), -1])
     # last: the file is parsed once and converted several times (sequences_load(midi_file=...)); the judged load is the last
-    return tpb, tracks, groups, metas, mi, r.random() < 0.35
+    return tpb, tracks, groups, metas, mi, r.choice([False, False, False, True, True, "parse"])
 
 
 def write_midi(tpb, tracks, path):
@@ -1791,6 +1816,11 @@ def write_midi(tpb, tracks, path):
 def midi_load(inp, path):
     tpb, tracks, groups, metas, mi = inp[:5]
     write_midi(tpb, tracks, path)
+    if len(inp) > 5 and inp[5] == "parse":       # the in-memory route: MidiFile().parse_mido(mido file object)
+        mf = MidiFile()
+        mf.parse_mido(mido.MidiFile(path))
+        return Sequence.sequences_load(midi_file=mf, track_indices=[list(g) for g in groups], meta_track_indices=list(metas),
+                                       target_meta_track_index=mi)
     if len(inp) > 5 and inp[5]:
         mf = MidiFile.open(path)
         try:
